@@ -176,11 +176,11 @@ Definition common_answer_ok (s : store) (l : list N) (mh : Z) (res : cres) : Pro
 Lemma min_height_le_all hs d : forall r, In r hs -> min_height hs d <= height r.
 Proof. intros r Hr. apply min_height_le_in. exact Hr. Qed.
 
-Theorem common_ancestor_spec s l hs : Valid s -> l <> [] -> (forall t, In t l -> regular s t) ->
+Theorem common_ancestor_spec_wf s l hs : wf s -> l <> [] -> (forall t, In t l -> regular s t) ->
   Forall2 (fun t r => by_hash s t = Some r) l hs ->
   common_answer_ok s l (min_height hs max_int32) (common_ancestor s l).
 Proof.
-  intros HV Hne HR Hhs. pose proof (valid_wf s HV) as Hwf. pose proof (wf_nodup s Hwf) as Hnd.
+  intros Hwf Hne HR Hhs. pose proof (wf_nodup s Hwf) as Hnd.
   assert (Hall: all_some (map (by_hash s) l) = Some hs).
   { clear - Hhs. induction Hhs as [|t r l hs E _ IH]; [reflexivity|]. cbn. rewrite E, IH. reflexivity. }
   unfold common_ancestor. destruct l as [|t0 l0]; [contradiction|]. rewrite Hall.
@@ -213,6 +213,11 @@ Proof.
       rewrite (aoh_complete s t (mh - 1) c (HR t Ht) Hc1 Hc2) in Hnone. discriminate.
 Qed.
 
+Theorem common_ancestor_spec s l hs : Valid s -> l <> [] -> (forall t, In t l -> regular s t) ->
+  Forall2 (fun t r => by_hash s t = Some r) l hs ->
+  common_answer_ok s l (min_height hs max_int32) (common_ancestor s l).
+Proof. intros HV. apply common_ancestor_spec_wf, valid_wf, HV. Qed.
+
 (* a hash that is not stored: ErrHeaderNotFound *)
 Lemma common_ancestor_unknown s l t : In t l -> by_hash s t = None -> common_ancestor s l = CErrNotFound.
 Proof.
@@ -238,16 +243,16 @@ Proof.
     exists g. split; [eapply reach_next; eassumption| split; assumption].
 Qed.
 
-Theorem common_ancestor_connected s l hs : Valid s -> l <> [] ->
+Theorem common_ancestor_connected_wf s l hs : wf s -> l <> [] ->
   Forall2 (fun t r => by_hash s t = Some r /\ orph r = false) l hs -> 1 <= min_height hs max_int32 ->
   exists r, common_ancestor s l = COk r.
 Proof.
-  intros HV Hne Hhs Hmh. pose proof (valid_wf s HV) as Hwf.
+  intros Hwf Hne Hhs Hmh.
   assert (Hhs': Forall2 (fun t r => by_hash s t = Some r) l hs).
   { clear - Hhs. induction Hhs as [|t r l hs [E _] _ IH]; constructor; assumption. }
   assert (HR: forall t, In t l -> regular s t).
   { intros t Ht. destruct (Forall2_in_l _ _ _ t Hhs Ht) as (r & _ & E & Ho). apply (connected_regular s t r Hwf E Ho). }
-  pose proof (common_ancestor_spec s l hs HV Hne HR Hhs') as Hspec.
+  pose proof (common_ancestor_spec_wf s l hs Hwf Hne HR Hhs') as Hspec.
   destruct (common_ancestor s l) as [r| | | | |]; [exists r; reflexivity| exfalso ..]; cbn in Hspec; try exact Hspec.
   all: apply Hspec.
   all: destruct s as [|r0 s0]; [inversion Hwf|].
@@ -260,6 +265,11 @@ Proof.
   all: exists g; split; [|lia].
   all: intros t Ht; destruct (Hg t Ht) as (g' & Hg1' & _ & Hg3'); rewrite Hg3, <- Hg3'; exact Hg1'.
 Qed.
+
+Theorem common_ancestor_connected s l hs : Valid s -> l <> [] ->
+  Forall2 (fun t r => by_hash s t = Some r /\ orph r = false) l hs -> 1 <= min_height hs max_int32 ->
+  exists r, common_ancestor s l = COk r.
+Proof. intros HV. apply common_ancestor_connected_wf, valid_wf, HV. Qed.
 
 (* ---------------- the endpoint never answers 500 (after the fixes 5ab472d / 5c09f8d) ---------------- *)
 Lemma all_some_map_nonempty {A B} (f : A -> option B) a l r : all_some (map f (a :: l)) = Some r -> r <> [].
